@@ -370,6 +370,10 @@ def simulated_anneal_tree(
         if progbar:
             pbar.update()
 
+    # nodes have been re-created: any explicit index orders, contraction
+    # recipes and compiled contractions refer to the previous tree
+    tree.reset_contraction_indices()
+
     return tree
 
 
